@@ -151,6 +151,19 @@ def _fix_xlink_ns(tree):
     return tree
 
 
+def _remove_keeping_tail(el):
+    # lxml's remove() takes the text that follows the element (its tail) with it;
+    # character data after ignorable content still belongs to the parent
+    parent = el.getparent()
+    if el.tail and el.tail.strip():
+        prev = el.getprevious()
+        if prev is not None:
+            prev.tail = (prev.tail or "") + el.tail
+        else:
+            parent.text = (parent.text or "") + el.tail
+    parent.remove(el)
+
+
 def _del_attrs(el, *attr_names):
     for name in attr_names:
         if name in el.attrib:
@@ -1036,7 +1049,7 @@ class SVG:
                 del el.attrib[attr]
 
         for el in el_to_rm:
-            el.getparent().remove(el)
+            _remove_keeping_tail(el)
 
         # Make svg default; destroy anything unexpected
         good_nsmap = {
@@ -1064,7 +1077,7 @@ class SVG:
                 # a sibling of the root element (e.g. <?xml-stylesheet?> in the prolog):
                 # not part of the tree that is converted and serialised
                 continue
-            parent.remove(el)
+            _remove_keeping_tail(el)
 
         return self
 
@@ -1079,7 +1092,7 @@ class SVG:
         self._update_etree()
 
         for el in self.xpath("//svg:symbol[not(@id)]"):
-            el.getparent().remove(el)
+            _remove_keeping_tail(el)
 
         return self
 
@@ -1093,7 +1106,7 @@ class SVG:
 
         for tag in ("title", "desc", "metadata", "comment"):
             for el in self.xpath(f"//svg:{tag}"):
-                el.getparent().remove(el)
+                _remove_keeping_tail(el)
 
         return self
 
